@@ -249,6 +249,32 @@ theorem storeSnapshot_sound (log : List Row) (sn : Snaps) (head interval : Int) 
         obtain ⟨a, b⟩ := hcov row hrow hle hcl
         exact ⟨by simp only [rowId] at a; omega, b⟩
 
+/-! ### where a rebuild ends (used by Props/C20Srv) -/
+
+theorem closest_le (rows : List SnapRow) (seq : Int) (h : 0 ≤ seq) : (closest rows seq).serverSeq ≤ seq := by
+  unfold closest
+  suffices hb : ∀ best : SnapRow, best.serverSeq ≤ seq → (rows.foldl (closer seq) best).serverSeq ≤ seq from
+    hb noSnapshot h
+  induction rows with
+  | nil => intro best hb; exact hb
+  | cons r rest ih =>
+    intro best hb
+    simp only [List.foldl_cons]
+    apply ih
+    unfold closer
+    split
+    · rename_i hc; exact hc.1
+    · exact hb
+
+theorem start_le (sn : Snaps) (seq : Int) (h : 0 ≤ seq) : (buildStart sn seq).serverSeq ≤ seq := by
+  unfold buildStart
+  split
+  · rename_i c _
+    split
+    · exact closest_le sn.rows seq h
+    · rename_i hn; omega
+  · exact closest_le sn.rows seq h
+
 /-! ### negation witness: the tree as it is (`dropVectorWithoutRows = true`) -/
 
 /-- actor 7 attaches (presence only), edits (lamport 1) and detaches (presence clear); nobody is attached when
